@@ -86,6 +86,14 @@ def gen_gene(rng, lo, hi, idx, seqname, parse_leg, tx_type_differs_p=0.15):
         if t.get("product") and rng.random() < 0.3:
             t["product"] = rng.choice(["kinase; putative", "50% identity", "α subunit", "DNA-binding protein"])
         txs.append(t)
+    if not parse_leg and len(txs) > 1 and txs[0].get("cds_starts") and rng.random() < 0.08:
+        # two isoforms sharing one CDS (common in real annotation): same blocks, frames, product, protein id
+        t0, t1 = txs[0], txs[1]
+        t1.update(exon_starts=[min(t0["exon_starts"][0], max(0, t0["cds_starts"][0] - 2))] + t0["exon_starts"][1:], exon_ends=list(t0["exon_ends"]),
+                  strand=t0["strand"], cds_starts=list(t0["cds_starts"]), cds_ends=list(t0["cds_ends"]), cds_frames=list(t0["cds_frames"]),
+                  product=t0.get("product"), protein_id=t0.get("protein_id"))
+        if t1["exon_starts"][0] > t1["cds_starts"][0]:
+            t1["exon_starts"][0] = t1["cds_starts"][0]
     coding = any(t.get("cds_starts") for t in txs)
     gtype = "protein_coding" if coding else rng.choice(specs.BIOTYPES_NONCODING)
     for t in txs:
@@ -534,7 +542,7 @@ def check_wellformed(text, case):
             bad("id_missing_or_multi", r["line"])
         else:
             if rid[0] in ids:
-                bad("duplicate_id", rid[0][:40])
+                bad("duplicate_id_identical_content" if _has_identical_twins(case) else "duplicate_id", rid[0][:40])
             ids[rid[0]] = r
         par = r["attrs"].get("Parent")
         if par is not None:
@@ -602,6 +610,33 @@ def check_wellformed(text, case):
     elif fasta:
         bad("unexpected_fasta")
     return fs, rows
+
+
+def _has_identical_twins(case):
+    """IDs are content digests: two entities of one level with identical content (e.g. two isoforms sharing one CDS, with
+    the same product and protein id) necessarily get the same ID.  True if the spec contains such twins."""
+    def dup(keys):
+        seen = set()
+        for k in keys:
+            k = json.dumps(k, sort_keys=True, default=str)
+            if k in seen:
+                return True
+            seen.add(k)
+        return False
+
+    cds, txs, genes, feats, fcs = [], [], [], [], []
+    for sp in case["specs"]:
+        for g in sp["genes"]:
+            genes.append([sp["sequence_name"], g])
+            for t in g["transcripts"]:
+                txs.append([sp["sequence_name"], t])
+                if t.get("cds_starts"):
+                    cds.append([sp["sequence_name"], t["cds_starts"], t["cds_ends"], t["strand"], t["cds_frames"], t.get("product"), t.get("protein_id")])
+        for c in sp["feature_collections"]:
+            fcs.append([sp["sequence_name"], c])
+            for f in c["feature_intervals"]:
+                feats.append([sp["sequence_name"], f])
+    return any(dup(x) for x in (cds, txs, genes, feats, fcs))
 
 
 def _why_top(exp, near):
@@ -916,7 +951,9 @@ def run_case(case):
             elif rec["n"] != rec["k"] - 1 or not rec["prefix_ok"]:
                 fs.append({"inv": "write_fault", "what": "not_a_prefix", "detail": ""})
     # (b), (c) importer node
-    if case["parse_leg"]:
+    twins = any(f["what"] == "duplicate_id_identical_content" for f in wf)
+    stats["episodes_with_identical_content_twins(parse leg skipped)"] += int(twins and case["parse_leg"])
+    if case["parse_leg"] and not twins:
         imp = nd.call(case["hs_b"], {"op": "c11.import", "text": t1, "fasta": case["args"]["add_sequences"], "args": case["args"],
                                      "reader_chunk": case["reader_chunk"], "reader_seed": 7})
         stats["parse_legs"] += 1
